@@ -77,6 +77,8 @@ pub enum HEv {
     Dropped { tag: u8, id: ConnectionId },
     /// the handler handed a ReportRemoteProtocols event to the connection
     Reported { tag: u8, id: ConnectionId, add: bool, protos: Vec<String> },
+    /// ConnectionEvent::AddressChange reached this handler
+    AddressChange { tag: u8, id: ConnectionId, addr: Multiaddr },
 }
 
 #[derive(Default)]
@@ -536,6 +538,9 @@ impl ConnectionHandler for ProbeHandler {
                         self.held.push((stream, false));
                     }
                 }
+            }
+            ConnectionEvent::AddressChange(c) => {
+                hlog(&self.log, HEv::AddressChange { tag: self.tag, id: self.id, addr: c.new_address.clone() });
             }
             ConnectionEvent::DialUpgradeError(e) => {
                 self.pending_outbound = self.pending_outbound.saturating_sub(1);
